@@ -4,7 +4,7 @@
 From Coq Require Import ZArith List Bool Lia.
 From PBC Require Import Impl.Desc Impl.Mem Impl.Unpack Impl.Canon Spec.WireRaw Proofs.ScanInv Proofs.Required
   Proofs.SpecRefine1 Proofs.SpecRefine2.
-From PBC Require Proofs.ScanRec Proofs.MergeSafe Proofs.LeafSafe.
+From PBC Require Proofs.ScanRec Proofs.MergeSafe Proofs.LeafSafe Proofs.Examples.
 Import ListNotations.
 Local Open Scope Z_scope.
 
@@ -57,3 +57,40 @@ End ReqSpec.
 
 Print Assumptions missing_on_the_wire_rejected.
 Print Assumptions present_on_the_wire_passes.
+
+(* ---- non-vacuity: the example schema (field 1 is a required int32 without default) on two concrete inputs *)
+Definition ex_md : mdesc := nth 0 Examples.ex_env (Examples.mkdesc [] 0).
+
+Lemma rec_good_varint : forall md r v, rr_pay r = WireMsg.PVar v -> rec_good md r.
+Proof. intros md r v Hv i f bs _ _ _ _ Hp. rewrite Hv in Hp. discriminate Hp. Qed.
+
+(* [24;5] : one record, field 3; field 1 is missing: hypotheses of the first theorem hold, and the parse is refused *)
+Example missing_hypotheses_met :
+  env_ok Examples.ex_env = true /\ nth_error Examples.ex_env 0 = Some ex_md /\
+  exists rs f, read_raw 5 [24;5] = Some rs /\ Forall (rec_good ex_md) rs /\
+    nth_error (md_fields ex_md) 0 = Some f /\ must_appear f = true /\
+    (forall r, In r rs -> rr_num r <> f_id f) /\
+    unpack Examples.ex_env 1 0 [24;5] = Err EFail.
+Proof.
+  split; [vm_compute; reflexivity|]. split; [reflexivity|].
+  eexists. eexists. split; [vm_compute; reflexivity|].
+  split; [constructor; [eapply rec_good_varint; reflexivity | constructor]|].
+  split; [reflexivity|]. split; [vm_compute; reflexivity|].
+  split; [|vm_compute; reflexivity].
+  intros r [<-|[]]. vm_compute. discriminate.
+Qed.
+
+(* [24;5;8;7] : field 3 then field 1: hypotheses of the second theorem hold, and the parse succeeds *)
+Example present_hypotheses_met :
+  exists rs, read_raw 5 [24;5;8;7] = Some rs /\ Forall (rec_good ex_md) rs /\
+    (forall i f, nth_error (md_fields ex_md) i = Some f -> must_appear f = true -> exists r, In r rs /\ rr_num r = f_id f) /\
+    exists m, unpack Examples.ex_env 5 0 [24;5;8;7] = Ok m.
+Proof.
+  eexists. split; [vm_compute; reflexivity|].
+  split; [constructor; [eapply rec_good_varint; reflexivity | constructor; [eapply rec_good_varint; reflexivity | constructor]]|].
+  split.
+  - intros i f Hi Hm. eexists. split; [right; left; reflexivity|].
+    do 8 (destruct i as [|i]; [cbn in Hi; injection Hi as <-; first [reflexivity | vm_compute in Hm; discriminate Hm]|]).
+    destruct i; discriminate Hi.
+  - eexists. vm_compute. reflexivity.
+Qed.
